@@ -21,10 +21,10 @@ case "$cmd" in
     git -C "$L/verif" add -A -N . ; git -C "$L/verif" status --short | grep -v '^?? evidence' || true
     echo "--- repo:"; git -C "$L/repo" status --short; git -C "$L/repo" log --oneline HEAD --not $(git -C /repo rev-parse HEAD) 2>/dev/null || true;;
   pull)
-    git -C "$L/verif" add -A . ; git -C "$L/verif" reset -q -- evidence 2>/dev/null || true
+    git -C "$L/verif" add -A . ; git -C "$L/verif" reset -q -- evidence coq/.lia.cache coq/.nia.cache coq/_CoqProject 2>/dev/null || true
     git -C "$L/verif" diff --cached --binary HEAD > "$L/verif.patch"
     git -C "$L/repo" diff --binary HEAD > "$L/repo.patch"
-    if [ -s "$L/verif.patch" ]; then (cd /verif && git apply --3way --whitespace=nowarn "$L/verif.patch") && echo "verif changes applied"; else echo "no verif changes"; fi
+    if [ -s "$L/verif.patch" ]; then (cd /verif && git apply --3way --whitespace=nowarn "$L/verif.patch") && echo "verif changes applied"; sh /verif/tools/mkproject.sh >/dev/null; else echo "no verif changes"; fi
     [ -s "$L/repo.patch" ] && echo "uncommitted repo changes in $L/repo.patch" || true;;
   rm)
     git -C /verif worktree remove --force "$L/verif" 2>/dev/null || true
